@@ -108,7 +108,7 @@ func (s *HistSpec) RunHistory(hist []Action, trace bool) HistResult {
 				if trace {
 					vsched.Logf("   [%s] %s", m.Comp, m.Msg)
 				}
-				if s.Comps[m.Comp] || m.Comp == "harness" {
+				if s.Comps[m.Comp] || m.Comp == "harness" || m.Comp == "alloc" {
 					if out.Violation == "" {
 						out.Violation = fmt.Sprintf("after %s: %s", a, m.Msg)
 						out.Comp = m.Comp
